@@ -68,6 +68,22 @@ theorem le_maxOf : ∀ (l : List Nat) (x : Nat), x ∈ l → x ≤ maxOf l
       simp only [maxOf] at this
       omega
 
+theorem le_skipTaken (taken : List Nat) : ∀ (fuel id : Nat), id ≤ skipTaken taken fuel id
+  | 0, _ => Nat.le_refl _
+  | fuel + 1, id => by
+    unfold skipTaken
+    split
+    · exact Nat.le_trans (Nat.le_succ id) (le_skipTaken taken fuel (id + 1))
+    · exact Nat.le_refl _
+
+/-- the id `NewSheet` allocates is larger than every listed sheet id -/
+theorem newSheetID_gt (s : St) : maxOf (s.sheets.map (·.id)) < newSheetID s := by
+  unfold newSheetID
+  dsimp only
+  split
+  · exact Nat.lt_of_lt_of_le (Nat.lt_succ_self _) (le_skipTaken _ _ _)
+  · exact Nat.lt_succ_self _
+
 theorem perm_cons_eraseIdx {α} : ∀ (l : List α) (i : Nat) (x : α), l[i]? = some x →
     (x :: l.eraseIdx i).Perm l
   | [], i, x, h => by simp at h
@@ -238,7 +254,7 @@ theorem deleteSheet_absent (s : St) (n : Name) (hv : validName n = true) (h : sh
 theorem newSheet_core (s s' : St) (n : Name) (r : Option Nat) (h : newSheet s n = .ok (s', r)) :
     s' = s ∨ (validName n = true ∧ (∀ sh ∈ s.sheets, fold sh.name ≠ fold n) ∧
       ∃ rid, core s' = ⟨s.count + 1, s.activeTab,
-        s.sheets ++ [⟨n, maxOf (s.sheets.map (·.id)) + 1, rid, Vis.visible⟩], s.defs⟩) := by
+        s.sheets ++ [⟨n, newSheetID s, rid, Vis.visible⟩], s.defs⟩) := by
   unfold newSheet at h
   split at h
   · cases h
